@@ -1,7 +1,7 @@
 """C14 - buffered readers behave like one flat byte buffer for every chunking.
 
 sync  : falcon/util/reader.py  BufferedReader   (model FalconModel/Reader.lean + ReaderExtra.lean, driver rddriver)
-async : falcon/asgi/reader.py  BufferedReader   (model FalconModel/AsyncReader.lean, driver ardriver)
+async : falcon/asgi/reader.py  BufferedReader   (model FalconModel/AsyncReader.lean + AsyncReaderIter.lean, theorems AsyncReaderProofs.lean, driver ardriver)
 
 Three things happen for every generated case (one reader construction + one history of operations):
   * the real class executes the history (every sync call under `alarm`, every async call under `asyncio.wait_for` + `alarm`);
@@ -12,7 +12,8 @@ Three things happen for every generated case (one reader construction + one hist
 PROP = 'C14'
 LEAN_MODULES = ['FalconModel.Reader', 'FalconModel.ReaderExtra', 'FalconModel.ReaderProofs', 'FalconModel.FindLemmas',
                 'FalconModel.ReadUntilProofs', 'FalconModel.RULoop', 'FalconModel.ReaderHistory', 'FalconModel.PeekProofs',
-                'FalconModel.ReaderC14', 'FalconModel.ReaderPublic', 'FalconModel.AsyncReader']
+                'FalconModel.ReaderC14', 'FalconModel.ReaderPublic', 'FalconModel.AsyncReader', 'FalconModel.AsyncReaderIter',
+                'FalconModel.AsyncReaderProofs']
 DRIVERS = ['rddriver', 'ardriver']
 THEOREMS = [
     # --- headline statements (sync reader, any lawful source = every chunking / short-read pattern)
@@ -46,6 +47,19 @@ THEOREMS = [
     'Rd.LInv.append', 'Rd.drop_all_of_pos_eq', 'Rd.LInv.take_through', 'Rd.readUntilLoop_refines', 'Rd.avail_length_le', 'Rd.LInv.start',
     # --- PeekProofs.lean
     'Rd.fillBuffer_full',
+    # --- AsyncReaderProofs.lean: the async reader model ARd (the one ardriver runs) refines the same flat cursor, every chunking
+    'ARd.async_reader_refines_flat_cursor', 'ARd.async_history_refines_cursor', 'ARd.asyncStep_refines',
+    'ARd.async_reader_iter_refines_flat_cursor', 'ARd.async_history_iter_refines_cursor', 'ARd.iterate_refines', 'ARd.iterLoop_spec',
+    'ARd.fresh_async', 'ARd.tell_total', 'ARd.eof_end', 'ARd.eof_after_drain',
+    'ARd.read_refines', 'ARd.readall_refines', 'ARd.peek_refines', 'ARd.readUntil_refines', 'ARd.pipeUntil_refines',
+    'ARd.pipe_refines', 'ARd.exhaust_refines', 'ARd.pipe_spec', 'ARd.until_tail',
+    'ARd.readFrom_spec', 'ARd.readAll_spec', 'ARd.readN_spec', 'ARd.prepend_spec', 'ARd.weight_lt_big', 'ARd.lim_le', 'ARd.lim_isW',
+    'ARd.peek_spec', 'ARd.peekLoop_spec', 'ARd.consume_spec',
+    'ARd.step_spec', 'ARd.step_w', 'ARd.wSource_spec', 'ARd.dStart_spec', 'ARd.dPreLoop_spec', 'ARd.dLoop_spec', 'ARd.dAfterOutput_spec',
+    'ARd.dCheck_spec', 'ARd.d_buf_yield', 'ARd.buf_yield', 'ARd.trim_spec', 'ARd.merge_eq', 'ARd.need_le_fuelOf', 'ARd.StepSpec.transfer',
+    'ARd.nextNorm_spec', 'ARd.normLoop_spec', 'ARd.good_next_some', 'ARd.good_next_none', 'ARd.abs_eq', 'ARd.abs_same', 'ARd.abs_length_buf',
+    'ARd.straddle', 'ARd.U_spec', 'ARd.U_eq', 'ARd.U_ge', 'ARd.U_drop', 'ARd.U_found', 'ARd.U_ge_buf', 'ARd.stopAt_eq_min_U',
+    'ARd.sliceTo_eq_slice', 'ARd.take_min_length', 'ARd.drop_min_length',
 ]
 STATEMENTS = {
     'Rd.public_history_refines_cursor': 'C14 for one synchronous reader: for every reader state satisfying the invariant, every lawful source (= every chunking and short-read pattern), every chunk size and every history of public operations read / peek / read_until / pipe_until (with or without consuming the delimiter, any size cap) / pipe / exhaust / readline / readlines with valid arguments (sizes None, -1 or >= 0; 1 <= len(delimiter) <= chunk size): the observations (bytes, list of lines, None, DelimiterError) are operation by operation those of the flat cursor cursorRun over abs(r), exactly the cursor\'s rest remains - nothing returned twice or skipped - and the invariant (incl. budget >= 0, i.e. never beyond max_stream_len) holds again',
@@ -88,12 +102,31 @@ STATEMENTS = {
     'Rd.exit_enough_data': 'exit "enough data in the buffer" (size < have + buffered - (len(d)-1)) returns exactly size bytes',
     'Rd.exit_all_buffered': 'exit "EOF reached" returns the text up to the delimiter / size / end',
     'Rd.finish_next': 'exit "enough accumulated, keep the look-ahead chunk": the chunk read ahead is spliced back into the buffer, nothing is dropped',
+    'ARd.async_reader_refines_flat_cursor': 'C14 for the async reader as stated: for every list of source chunks (= every chunking of the data, empty chunks anywhere), every chunk size > 0 and every history of read(any int or None) / readall / peek / read_until / pipe_until (with or without consuming the delimiter, 1 <= len(delimiter) <= chunk size) / pipe / exhaust, the model of BufferedReader(source, chunk_size) that ardriver runs returns operation by operation exactly the observations (bytes, None, DelimiterError) of the flat cursor Rd.cursorRun over the concatenated data - the same specification as for the sync reader -, what it still has to deliver is exactly the cursor\'s rest (nothing lost, duplicated or reordered), tell() equals the cursor position len(data) - len(rest), and eof is true only when the rest is empty',
+    'ARd.async_history_refines_cursor': 'the same from ANY reader state satisfying the representation invariant Good (any buffer contents and position, any chunks still to come, _iter_normalized suspended at either of its yields or finished): the observations of every history are those of the flat cursor over abs(r) = unread buffer ++ what the normalized source will still deliver, abs of the final state is the cursor\'s rest, Good holds again and consumed + len(future) (hence tell() + len(rest)) is unchanged; by induction over the history',
+    'ARd.asyncStep_refines': 'one public operation = one Rd.cursorStep (same observation, same remaining text), invariant, chunk size and tell()+len(rest) preserved',
+    'ARd.async_history_iter_refines_cursor': 'histories that may also iterate (async for, abandoned after k chunks): every observation is accepted by the flat cursor in turn - ordinary operations deterministically as above, an iteration as ANY chunking of the next bytes that is shorter than k chunks only at the end of the data - and the cursor ends at exactly what the reader still has to deliver',
+    'ARd.async_reader_iter_refines_flat_cursor': 'the same from construction over any list of source chunks, with tell() = cursor position',
+    'ARd.iterate_refines': 'async-for over the reader, stopped after k chunks: the chunks concatenate to the next bytes of the flat text, the rest remains, fewer than k chunks only if the text is used up',
+    'ARd.step_spec': 'one resumption of either wrapper generator (_iter_with_buffer / _iter_delimited) at any of its nine program counters, from any state satisfying the generator invariant GI: a yield hands out the next bytes of the flat text and stays within the generator\'s share (everything / up to the first occurrence of the delimiter), StopAsyncIteration comes only when the share is used up, ValueError never for a valid delimiter; the recursion fuel fuelOf of the model is sufficient',
+    'ARd.dLoop_spec': 'the `async for chunk in self._source` loop of _iter_delimited from any state with position 0 and no complete delimiter in the buffer (all five exits: source exhausted, no delimiter across the border, delimiter straddling the border, delimiter in the merged buffer, continue), by induction on the chunks still to come',
+    'ARd.straddle': 'cross-chunk delimiter detection: with no complete occurrence in the buffer b, an occurrence of d starting inside b exists in b ++ chunk ++ rest iff the search in fragment = b[len(b)-(len(d)-1):] + chunk[:len(d)-1] finds it - provided the chunk is a full one (len(d) <= chunk_size <= len(chunk)) or the last one, which is what _iter_normalized guarantees (nextNorm_spec)',
+    'ARd.nextNorm_spec': 'one __anext__ of _iter_normalized, from any of its suspension points: either a non-empty chunk c with future = c ++ future\', consumed += len(c), and c at least chunk_size long unless it is the last one; or StopAsyncIteration with nothing left, _exhausted set; empty source items change nothing; the fuel of normLoop is sufficient',
+    'ARd.readFrom_spec': '_read_from(source, size) for size None, -1, <= 0, > 0 and either generator: returns the next min(size, share) bytes and leaves exactly the rest (the unused tail of the last chunk goes back in front of the buffer); the loop fuel is sufficient',
+    'ARd.readAll_spec': 'draining a generator completely returns exactly its share of the flat text; for _iter_with_buffer the reader is then at eof',
+    'ARd.peek_spec': 'peek(size) returns the next size (clamped to the chunk size) bytes of the flat text and consumes nothing; the loop fuel is sufficient',
+    'ARd.consume_spec': '_consume_delimiter succeeds iff the flat text continues with the delimiter and then steps over exactly it; otherwise DelimiterError and nothing is consumed',
+    'ARd.eof_end': 'eof is true only when nothing is left to read',
+    'ARd.eof_after_drain': 'after readall / read(None) / read(-1) / pipe / exhaust eof is true',
+    'ARd.tell_total': 'tell() + len(text still to come) = consumed + len(what the source will still deliver): with the preserved total this makes tell() the flat cursor position',
+    'ARd.fresh_async': 'BufferedReader(source, chunk_size > 0) starts in a state satisfying the invariant, with abs = the concatenation of all source chunks and tell() = 0',
+    'ARd.U_drop': 'after handing out m bytes that lie before the delimiter, the rest is still up to the same delimiter: m + U d (A[m:]) = U d A',
 }
 TRUSTED = [
     'LawfulSource as the contract of the read callable handed to the sync reader (returns a prefix of the text still to come, at most the requested length, empty only at its end); instance proved for the file-like source with any short-read oracle',
     'the Python statement oracle `Cur` in harness/props/c14.py (flat cursor; a delimited sub-reader = cursor over the text up to the next delimiter)',
     'timers deciding "did not return": 3 s of CPU time (ITIMER_VIRTUAL) or 60 s wall-clock (ITIMER_REAL) per real call; asyncio.wait_for(..., 60 s) around every async case',
-    'the async reader (falcon/asgi/reader.py) is covered by the model correspondence and the oracle only - no theorem is stated about AsyncReader.lean',
+    'async reader: the theorems are about the model ARd/ARi (AsyncReader.lean, AsyncReaderIter.lean); that this model behaves like falcon/asgi/reader.py is the differential correspondence through ardriver (return values, exceptions, tell(), eof, the chunks of an iteration); a source is a finite list of byte chunks; the representation invariant Good requires chunk_size > 0',
 ]
 ASSUMPTIONS = [
     'size arguments are None, -1 or >= 0 for the sync reader (read(-2) moves the buffer position backwards; not part of the statement); any int or None for the async reader',
@@ -114,9 +147,12 @@ RULE = ('random part: data over {a,b,CR,LF,-} (uniform or delimiter-sparse) of l
         'to length 2 (quick, and thorough for length-4 data) / 3 (thorough, data up to length 3) over a fixed op alphabet (sync 18 ops, async 17 ops) incl. delimit/pop; one in 40 grid cases '
         'also goes to the model. non-trivial = some operation returned data; distinct = distinct (reader kind, construction, history)')
 PARTIAL = ('Proved for the sync reader over any lawful source (= every chunking and short-read pattern): every history of public operations of one reader - read, peek, read_until and pipe_until '
-           'with and without delimiter consumption (join and pipe_until branch), pipe, exhaust, readline, readlines - refines the flat cursor (public_history_refines_cursor). Not proved (carried by '
-           'correspondence + oracle): delimit_refines_subcursor (Delim restricted to valid parents as a LawfulSource, i.e. that the theorems transfer to nested readers), and everything about the async '
-           'reader (AsyncReader.lean has no theorems; nested async readers are not in the model and are checked by the oracle only).')
+           'with and without delimiter consumption (join and pipe_until branch), pipe, exhaust, readline, readlines - refines the flat cursor (public_history_refines_cursor). Proved for the async '
+           'root reader over any list of source chunks (empty chunks anywhere): every history of read, readall, peek, read_until, pipe_until (with and without delimiter consumption), pipe, exhaust '
+           'and iteration refines the same flat cursor, tell() is the cursor position, eof only at the end (async_reader_refines_flat_cursor, async_history_iter_refines_cursor; all fuel of the model '
+           'shown sufficient). Not proved (carried by correspondence + oracle): delimit for both readers (sync: delimit_refines_subcursor, i.e. Delim restricted to valid parents as a LawfulSource; async: nested '
+           'readers are not in the model and are checked by the oracle only), the _iteration_started guard of the async reader (a second iteration raises; not modelled), and async sources that are '
+           'not finite chunk lists (a source raising an exception).')
 JOBS = {'quick': 4, 'thorough': 16}
 
 ALPH = b'ab\r\n-'
@@ -268,6 +304,8 @@ def _render(o):
         return 'ok ' + o[1].hex()
     if k == 'lines':
         return 'lines' + ''.join(' ' + x.hex() for x in o[1])
+    if k == 'chunks':
+        return 'chunks' + ''.join(' ' + (x.hex() or '-') for x in o[1])
     return {'unit': 'unit', 'delim': 'err delim', 'value': 'err value'}.get(k, k.upper())
 
 
@@ -297,6 +335,8 @@ def _line(op):
         return f'rls {op[1]}'
     if k == 'delimit':
         return 'delimit ' + _hx(op[1])
+    if k == 'iter':
+        return f'iter {op[1]}'
     return k            # pipe, exhaust, readall, pop
 
 
@@ -868,7 +908,8 @@ async def _run_async_body(env, plan, next_op, sess, st):
             if stack[-1][3]:
                 continue              # a second iteration raises OperationNotAllowed (guard, not part of the statement)
             stack[-1][3] = True
-            modelled = False
+            if modelled:
+                tags.add('iter_modelled')         # ARi.iterate: the chunks of the iteration are compared with the model
         if k in ('ru', 'pu') and not 1 <= len(op[1]) <= chunk:
             if not modelled or plan.get('grid'):
                 continue
@@ -992,7 +1033,7 @@ def _async(ctx, BR, DelimiterError):
     import asyncio
     rnd = ctx.rng
     env = (asyncio, _Alarm(), BR, DelimiterError)
-    sess = _Sessions(ctx, 'async BufferedReader (root reader) = ARd model', 'ardriver')
+    sess = _Sessions(ctx, 'async BufferedReader (root reader, incl. iteration) = ARd/ARi model', 'ardriver')
     stuck = [0]
 
     def record(plan, res, kind, key=None):
@@ -1140,10 +1181,14 @@ def run(ctx):
 
 LEVEL_TEXT = ('Machine-checked refinement proofs (Lean 4) for the synchronous BufferedReader, stated for an arbitrary lawful source so that "every chunking" is a universally quantified '
               'type-class argument: _perform_read returns exactly the requested declared bytes under every short-read pattern; _read (5 branches), peek and _read_until (6 loop exits, '
-              'cross-chunk fragment test, backlog, look-ahead chunk) refine the flat cursor, so do the public read, read_until and pipe_until (with and without consuming the delimiter), pipe, exhaust, readline and readlines, and every history of these public operations (public_history_refines_cursor). The models '
-              '(sync incl. nested delimited readers; async root reader) are tied to falcon/util/reader.py and falcon/asgi/reader.py on every run by a differential correspondence that '
+              'cross-chunk fragment test, backlog, look-ahead chunk) refine the flat cursor, so do the public read, read_until and pipe_until (with and without consuming the delimiter), pipe, exhaust, readline and readlines, and every history of these public operations (public_history_refines_cursor). '
+              'For the asynchronous BufferedReader the same flat cursor is refined by every history of read / readall / peek / read_until / pipe_until / pipe / exhaust / iteration over every list of source chunks '
+              '(empty chunks anywhere): invariant relating buffer, position, the suspended _iter_normalized and the remaining chunks to (data, flat position); one lemma per resumption of the wrapper generators '
+              '(_iter_with_buffer, _iter_delimited with the cross-chunk fragment search), per _read_from loop and per public operation; induction over histories (async_reader_refines_flat_cursor, '
+              'async_history_iter_refines_cursor); tell() = cursor position, eof only at the end. The models '
+              '(sync incl. nested delimited readers; async root reader incl. iteration) are tied to falcon/util/reader.py and falcon/asgi/reader.py on every run by a differential correspondence that '
               'compares return values, exceptions, the exact sizes requested from the source (sync) and tell()/eof (async); an independent flat-cursor oracle written from the statement '
               'decides failing inputs for both readers, including two levels of delimited sub-readers.')
-LEVEL_NOTE = ('Trusted: Lean kernel + standard axioms, the correspondence harness, the Cur oracle. Partial: delimit (nested readers) and the whole async reader are carried by correspondence + oracle, '
+LEVEL_NOTE = ('Trusted: Lean kernel + standard axioms, the correspondence harness, the Cur oracle. Partial: delimit (nested readers, sync and async) is carried by correspondence + oracle, '
               'not by theorems.')
-TECHNIQUE = 'Lean 4 refinement proof (reader model over any lawful source -> flat cursor) + differential correspondence model vs. real code + statement oracle (flat cursor with sub-cursors)'
+TECHNIQUE = 'Lean 4 refinement proof (sync reader model over any lawful source, async reader model over any chunk list -> one flat cursor) + differential correspondence model vs. real code + statement oracle (flat cursor with sub-cursors)'
